@@ -190,19 +190,11 @@ pub fn normalize(n: &Node) -> Node {
         Atomic(c) => Atomic(bx(c)),
         CondGroup(g, y, no) => {
             let (y2, n2) = (normalize(y), normalize(no));
-            if y2 == Empty && n2 == Empty {
-                GroupExists(*g)
-            } else {
-                CondExpr(Box::new(GroupExists(*g)), Box::new(y2), Box::new(n2))
-            }
+            CondExpr(Box::new(GroupExists(*g)), Box::new(y2), Box::new(n2))
         }
         CondExpr(c, y, no) => {
             let (c2, y2, n2) = (normalize(c), normalize(y), normalize(no));
-            if y2 == Empty && n2 == Empty {
-                c2
-            } else {
-                CondExpr(Box::new(c2), Box::new(y2), Box::new(n2))
-            }
+            CondExpr(Box::new(c2), Box::new(y2), Box::new(n2))
         }
         other => other.clone(),
     }
